@@ -42,6 +42,16 @@ void Runner::viol(const char *prop, const std::string &cls, const std::string &s
   if (K->keep_log) K->logrec(K_api, 999, op, (int64_t) out.viols.size(), 0, 0);
 }
 
+std::string Runner::fault_tag(int op) {
+  std::set<std::string> tags;
+  for (auto &f : K->faults)
+    if (f.fired && f.op == op) tags.insert(fmt("%s@%s", kind_name[f.kind], f.child ? "child" : "parent"));
+  if (tags.empty()) return "fault=none";
+  std::string r = "fault=";
+  for (auto &t : tags) { if (r.size() > 6) r += "+"; r += t; }
+  return r;
+}
+
 void Runner::tuple(uint64_t a, uint64_t b, uint64_t c, uint64_t d) {
   uint64_t h = (a * 1000003ull + b) * 1000003ull + c;
   h = h * 1000003ull + d;
@@ -195,8 +205,8 @@ void Runner::setup() {
   environ = env_arr.data();
   env_hash0 = environ_hash();
   // signals
-  for (int s : plan.w.ignored) if (s >= 1 && s <= 64) k->caller->disp[s] = D_IGN;
-  for (int s : plan.w.handled) if (s >= 1 && s <= 64) k->caller->disp[s] = D_HANDLER;
+  for (int s : plan.w.ignored) if (s >= 1 && s <= 64 && s != SIGKILL && s != SIGSTOP) k->caller->disp[s] = D_IGN;
+  for (int s : plan.w.handled) if (s >= 1 && s <= 64 && s != SIGKILL && s != SIGSTOP) k->caller->disp[s] = D_HANDLER;
   k->caller->disp[SIGPIPE] = D_IGN;  // README: required for the closed-pipe error to be observable
   k->specs = plan.children;
   k->faults = plan.faults;
@@ -214,7 +224,7 @@ void Runner::setup() {
   tpos.assign((size_t) nthreads, 0);
   for (int i = 0; i < nthreads; i++) {
     Thread *t = k->thread_new([](void *arg) { G->thread_main((int) (intptr_t) arg); }, (void *) (intptr_t) i);
-    t->mask = plan.w.mask & ~((1ull << (SIGKILL - 1)) | (1ull << (SIGSTOP - 1)));
+    t->mask = plan.w.mask & ~((1ull << (SIGKILL - 1)) | (1ull << (SIGSTOP - 1)) | (1ull << 31) | (1ull << 32));
   }
 }
 
@@ -322,10 +332,10 @@ void Runner::final_checks() {
     if (!c) continue;
     if (c->in_bad)
       viol("C02", "stdin-corrupted", "", fmt("child of handle %zu received bytes on stdin that differ from what was written", hi), h.start_op);
-    if (c->in_off > h.wr_off)
+    if (c->in_off > h.wr_off + h.wr_inflight)
       viol("C02", "stdin-duplicated", "", fmt("child of handle %zu received %llu bytes but only %llu were accepted", hi,
                                              (unsigned long long) c->in_off, (unsigned long long) h.wr_off), h.start_op);
-    if (c->in_eof && h.piped[0] && c->in_off != h.wr_off && !c->in_bad)
+    if (c->in_eof && h.piped[0] && c->in_off != h.wr_off && !c->in_bad && !h.wr_inflight)
       viol("C02", "stdin-lost", "", fmt("child of handle %zu saw end-of-file after %llu bytes, %llu were accepted", hi,
                                        (unsigned long long) c->in_off, (unsigned long long) h.wr_off), h.start_op);
     if (c->reaps > 1) viol("C01", "reaped-twice", "", fmt("child of handle %zu was reaped %d times", hi, c->reaps), h.start_op);
@@ -367,7 +377,7 @@ void Runner::final_checks() {
     for (size_t fd = 0; fd < k->caller->fds.size(); fd++) {
       FdEnt &e = k->caller->fds[fd];
       if (e.ofd && e.owner == OWN_LIB)
-        viol("C05", "descriptor-leak", fmt("made-by=%s", e.made_op >= 0 ? op_name[plan.ops[(size_t) e.made_op].kind] : "?"),
+        viol("C05", "descriptor-leak", fmt("made-by=%s/%s", e.made_op >= 0 ? op_name[plan.ops[(size_t) e.made_op].kind] : "?", fault_tag(e.made_op).c_str()),
              fmt("descriptor %zu opened by the library in op %d is still open after every handle was destroyed", fd, e.made_op), e.made_op);
     }
     for (int fd : user_fds) {
@@ -377,7 +387,7 @@ void Runner::final_checks() {
     }
     for (auto &kv : k->heap) {
       if (kv.second.owner != OWN_LIB) continue;
-      viol("C05", "memory-leak", fmt("made-by=%s", kv.second.op >= 0 ? op_name[plan.ops[(size_t) kv.second.op].kind] : "?"),
+      viol("C05", "memory-leak", fmt("made-by=%s/%s", kv.second.op >= 0 ? op_name[plan.ops[(size_t) kv.second.op].kind] : "?", fault_tag(kv.second.op).c_str()),
            fmt("block of %zu bytes allocated in op %d was never released", kv.second.size, kv.second.op), kv.second.op);
     }
   }
